@@ -169,7 +169,7 @@ def stepRw (ins impl : List String) : Option String := do
   | _ => none
 
 /-
-Line:  C06.dns  n  (domain answer kind ip)×n  host  qtype  =>  k asked×k  rcode  qname  m  (typ owner data)×m
+Line:  C06.dns  n  (domain answer kind ip)×n  host  qtype  upstream-rcode  =>  k asked×k  rcode  qname  m  (typ owner data)×m
 -/
 def parseRRs : Nat → List String → Option (List RR × List String)
   | 0, rest => some ([], rest)
@@ -215,20 +215,21 @@ def stepDns (ins impl : List String) : Option String := do
     let n ← parseNat nS
     let (raws, rest') ← parseRaws n rest
     match rest' with
-    | [hostS, qtS] =>
+    | [hostS, qtS, rcS] =>
       let host ← hexDecode hostS
       let qt ← parseNat qtS
+      let rc ← parseNat rcS
       let tbl := prepare raws
-      let m := respond tbl host qt
+      let m := respond tbl host qt rc
       let modelS := dnsClass tbl host qt ++ "\t" ++ showObs m
       match parseObs impl with
       | some obs =>
         -- the reply must be the rendering of a CheckHost result the model explains
-        let agree := match Spec.obsToOut obs host qt with
-          | some o => render o host qt == obs && checkAgree tbl host qt o
+        let agree := match Spec.obsToOut obs host qt rc with
+          | some o => render o host qt rc == obs && checkAgree tbl host qt o
           | none => false
-        let spec := if Spec.dnsSpecOK tbl host qt obs then none
-          else match Spec.obsToOut obs host qt with
+        let spec := if Spec.dnsSpecOK tbl host qt rc obs then none
+          else match Spec.obsToOut obs host qt rc with
             | none => some "C06.dns-reply-shape"
             | some o => some (Spec.failClass tbl (Bytes.lower host) qt o ++ ".dns")
         pure (verdict agree spec modelS)
